@@ -72,3 +72,56 @@ Example writes_nonempty :
   writes_of (exec world0 (sched1 ++ [EBegin])) (EMut (MAdd [1; 3] 1 8)) <> [] /\
   writes_of (exec world0 (sched1 ++ [EBegin])) (EMut (MDel 7)) <> [].
 Proof. vm_compute. split; discriminate. Qed.
+
+(* ---- what the heap model's snapshots MEAN: the abstract routing map of C11 (Proofs/SnapRefineProofs.v) ----
+   A snapshot denotes a finite map from (labels from the root, verb) to method names; the map operations are those
+   of Spec/AbsTrie.v (Registry.t_find / t_lookup / t_del are its instance at nat, the concrete trie of rules.go refines
+   it: Properties/C11.v). Under ANY schedule the published snapshot denotes the fold, over the empty map, of the
+   mutations of the writers that stored, in store order -- aborted writers and the writer in progress contribute
+   nothing -- and every route of the published state is that map's lookup (own verb, else '*'). *)
+From Larking Require Import Spec.AbsTrie Proofs.SnapRefineProofs.
+
+Theorem C12_published_state_is_map : forall es,
+  let w := exec world0 es in
+  let t := fold_left amut (committed None es) [] in
+  match pub w with
+  | Some s => SAbs (hp w) s t /\ SExact (hp w) s t /\ tree (hp w) s
+  | None => t = []
+  end.
+Proof. exact exec_refines. Qed.
+Print Assumptions C12_published_state_is_map.
+
+Theorem C12_routes_are_map_lookups : forall es labels verb,
+  let w := exec world0 es in
+  route_snap (hp w) (pub w) labels verb = s_lookup (fold_left amut (committed None es) []) labels verb.
+Proof. exact exec_routes. Qed.
+Print Assumptions C12_routes_are_map_lookups.
+
+(* linearizability in terms of the map: a request that loads after es1 is answered by the lookup in the map published
+   after es1, whatever is interleaved afterwards *)
+Theorem C12_request_sees_published_map : forall es1 labels verb es2,
+  let w1 := exec world0 es1 in
+  let w2 := exec (wstep w1 (ELoad labels verb)) es2 in
+  answer (hp w2) (nth (length (readers w1)) (readers w2) (RDone None)) =
+  s_lookup (fold_left amut (committed None es1) []) labels verb.
+Proof. exact request_sees_map. Qed.
+Print Assumptions C12_request_sees_published_map.
+
+(* state.clone: the copy denotes the same map, and the original still does *)
+Theorem C12_clone_preserves_map : forall h s t h' s',
+  closed h s -> (forall l, In l (sregion s) -> l < next h) -> clone_snap h (Some s) = (h', s') ->
+  SAbs h s t -> SAbs h' s' t /\ SAbs h' s t.
+Proof. exact clone_preserves_abs. Qed.
+Print Assumptions C12_clone_preserves_map.
+
+(* a limit of the heap model, kept checked: its MAdd conses the binding onto the node (aset), so an add over a bound
+   key shadows instead of replacing, and deleting the newer method resurrects the older binding -- the fold with
+   replace-or-insert is NOT what the heap denotes. rules.go never adds over a bound key (addRule stores only after its
+   duplicate check found the key free; a Go map assignment would replace); for such guarded writers the two readings
+   coincide (SnapRefineProofs.exec_refines_guarded). *)
+Theorem C12_heap_add_over_bound_key_shadows_refuted : exists es,
+  let w := exec world0 es in
+  exists s, pub w = Some s /\ ~ SAbs (hp w) s (fold_left amut_put (committed None es) []) /\
+  route_snap (hp w) (pub w) [1] 1 = Some 7 /\ s_lookup (fold_left amut_put (committed None es) []) [1] 1 = None.
+Proof. exact exec_refines_put_refuted. Qed.
+Print Assumptions C12_heap_add_over_bound_key_shadows_refuted.
